@@ -193,6 +193,16 @@ func (cr *concRun) checkBoundAndViews() {
 		}
 	}
 	if cfg.bounded() {
+		// "the configured maximum, including after the maximum is lowered at run time": what the
+		// callers configured, not what the cache reports. When the SetMaximum calls of the run are
+		// totally ordered in real time the last one decides; otherwise the cache's own report is used.
+		if want, ok := cr.configuredMaximum(); ok {
+			cr.probe["bound-judged-against-the-configured-maximum"]++
+			if cr.finalMax != want {
+				cr.fail(P("C04"), "bound.maximum-not-applied", -1, "GetMaximum() reports %d at quiescence, the last SetMaximum of the run asked for %d", cr.finalMax, want)
+			}
+			cr.finalMax = want
+		}
 		if sum > cr.finalMax {
 			cr.fail(P("C04"), "bound.exceeded", -1, "after quiescence and CleanUp the entries present weigh %d > maximum %d (%d entries; policy weightedSize %d)", sum, cr.finalMax, len(cr.finalAll), cr.auditFinal.PolicyWeighted)
 		}
@@ -1682,4 +1692,34 @@ func (cr *concRun) checkGetResultProduced() {
 		}
 		cr.fail(P("C08", "C10"), "load.result-not-produced", h.Op.K, "Get of key %d by task %d ([%d,%d]) returned (%d, nil): no write and no successful loader call produced that value for that key", h.Op.K, h.Task, h.Call, h.Ret, h.Res.V)
 	}
+}
+
+// configuredMaximum: the maximum the callers configured last, if that is unambiguous (every pair of
+// SetMaximum calls is ordered in real time).
+func (cr *concRun) configuredMaximum() (uint64, bool) {
+	want := cr.cc.Cfg.Max
+	var sets []*HistOp
+	for _, h := range cr.hist {
+		if h.Op.Kind == "setmax" {
+			if !h.Done {
+				return 0, false
+			}
+			sets = append(sets, h)
+		}
+	}
+	var last *HistOp
+	for _, a := range sets {
+		for _, b := range sets {
+			if a != b && a.Call < b.Ret && b.Call < a.Ret {
+				return 0, false // overlapping calls: either may have been applied last
+			}
+		}
+		if last == nil || a.Call > last.Call {
+			last = a
+		}
+	}
+	if last != nil {
+		want = uint64(last.Op.D)
+	}
+	return want, true
 }
